@@ -31,7 +31,8 @@ compiler-correctness theorem exists (`InFragment` / `InFragmentM`, `Model/Spec.l
   exactly that order: `let p := …; let q := …; ∀ env, …`).  Variables that are *still* unbound at run time
   are covered too: nothing is assumed about the names other than `x`, both programs then fail alike.
 
-NOT covered (`…` on the fragment only): map literals (duplicate keys: `C06.compile_time_map_eq_run_time_map`),
+NOT covered here (`…` on the fragment only; `Theorems/C09Sem2.lean` has the statement on the larger fragment
+`Frag2`, with calls, macros, map literals, f-strings, index / field access, type patterns): map literals (duplicate keys: `C06.compile_time_map_eq_run_time_map`),
 f-strings, member access / index / calls of built-ins and macros over partly constant arguments, type
 patterns of `match`, stored programs; list- and map-valued bindings (no literal primary denotes them —
 a list *literal* is an expression and is covered as one).  For those the metamorphic run of the facet (all
